@@ -1,7 +1,7 @@
 (** C07 stream: every case is compared with the model in its own parse mode
     (as in QE/Run.v) AND the model is evaluated in the other mode: the two model
     answers must coincide unless the documented host-name dot heuristic applies. *)
-From LMD Require Export QE.Run.
+From LMD Require Export QE.Run QE.Index QE.StatsOpt.
 From LMD Require Import Gen.Schema.
 Open Scope N_scope.
 
@@ -58,15 +58,79 @@ Definition modes_agree (c : qcase) : bool :=
   | _, _ => true
   end.
 
-Fixpoint mismatches7_from (i : nat) (cs : list qcase) : list (nat * nat) :=
+(** *** internal observables (harness/inpkg/qe_intern.go)
+    what DataStore.GetPreFilteredData selected per backend (row ids in emission order,
+    None = the whole table) and the shape of req.StatsGrouped (ParseOptimize only) *)
+Record intern := mkInt { i_cand : list (option (list str)); i_shape : option (option (list gshape)) }.
+Record xcase := mkX { x_case : qcase; x_int : option intern }.
+
+Definition option_eqb {A} (eqb : A -> A -> bool) (a b : option A) : bool :=
+  match a, b with
+  | Some x, Some y => eqb x y
+  | None, None => true
+  | _, _ => false
+  end.
+
+Fixpoint gshape_eqb (a b : gshape) : bool :=
+  match a, b with
+  | ShPlain p m, ShPlain q n => Nat.eqb p q && Nat.eqb m n
+  | ShGroup x, ShGroup y =>
+      (fix go (l1 l2 : list gshape) : bool :=
+         match l1, l2 with
+         | [], [] => true
+         | u :: l1', v :: l2' => gshape_eqb u v && go l1' l2'
+         | _, _ => false
+         end) x y
+  | _, _ => false
+  end.
+
+(** 0 = agree, 3 = the index pre-selection differs from QE/Index.v, 4 = the grouping differs from QE/StatsOpt.v *)
+Definition internals (c : xcase) : nat :=
+  match x_int c with
+  | None => 0
+  | Some it =>
+      let qc := x_case c in
+      match parse_request schema (q_opt qc) (q_lines qc) with
+      | Ok rq =>
+          (* an empty table: "the whole table" and "nothing pre-selected" cannot be told apart in the dump *)
+          let cands := map (fun bk => match table_data bk (rq_table rq) with
+                                      | Some td => match td_rows td with
+                                                   | [] => None
+                                                   | _ => prefilter_ids schema bk (rq_table rq) (rq_filter rq)
+                                                   end
+                                      | None => None
+                                      end) (q_ds qc) in
+          if negb (list_eqb (option_eqb (list_eqb str_eqb)) cands (i_cand it)) then 3
+          else match i_shape it with
+               | Some sh => if option_eqb (list_eqb gshape_eqb) (shapes (optimize (rq_stats rq))) sh then 0 else 4
+               | None => 0
+               end
+      | Err _ => 0
+      end
+  end%nat.
+
+Fixpoint mismatches7_from (i : nat) (cs : list xcase) : list (nat * nat) :=
   match cs with
   | [] => []
-  | c :: rest =>
+  | x :: rest =>
+      let c := x_case x in
       (match compare schema c with
        | Differ => [(i, 1%nat)]
-       | _ => if modes_agree c then [] else [(i, 2%nat)]
+       | _ => if modes_agree c then
+                    match internals x with O => [] | w => [(i, w)] end
+                  else [(i, 2%nat)]
        end) ++ mismatches7_from (S i) rest
   end.
 
-Definition mismatches (cs : list qcase) := mismatches7_from 0 cs.
-Definition skipped (cs : list qcase) := QE.Run.skipped cs.
+Definition mismatches (cs : list xcase) := mismatches7_from 0 cs.
+
+(** cases on which the data hypotheses of C07_index_parsed hold for every backend (reported, not required:
+    where they fail the comparison of the pre-selection above still applies) *)
+Definition hyp_ok (x : xcase) : bool :=
+  let c := x_case x in
+  match parse_request schema (q_opt c) (q_lines c) with
+  | Ok rq => forallb (fun bk => consistentb schema bk && store_sortedb_at bk (rq_table rq)) (q_ds c)
+  | Err _ => true
+  end.
+Definition hyp_failed (cs : list xcase) : nat := length (filter (fun x => negb (hyp_ok x)) cs).
+Definition skipped (cs : list xcase) := QE.Run.skipped (map x_case cs).
